@@ -73,3 +73,31 @@ func SpecBatchReqsOK(body string) bool {
 //@   invariant SpecBatchReqsOK(string(data[offset:offset+int(l)])) == SpecBatchReqsOK(string(data[i:offset+int(l)]))
 //@   decreases offset+int(l)-i
 //@ end
+
+// Marshal of a batch whose cache is empty (it always is for objects built through the package's API: the
+// method has a value receiver, so the encoding it stores goes into its own copy) returns a fresh frame:
+// a QUIC varint holding the length of what follows. The elements' own encodings may be cached in the
+// elements (tokens.TokenRequest.Marshal), which is why no frame is stated here.
+//
+//@ func (r BatchedTokenRequest) Marshal() (out []byte)
+//@ props C04
+//@ safety C04
+//@ requires r.raw == nil && forall(0, len(r.token_requests), func(k int) bool { return r.token_requests[k] != nil })
+//@ ensures fresh(out) && quicwire.ConsumeVarintOK(string(out))
+//@ ensures int(quicwire.ConsumeVarintValue(string(out))) == len(out)-quicwire.ConsumeVarintLen(out[0])
+//@ ensures r.raw == nil
+//@ loop 0 vars(bReqs *cryptobyte.Builder)
+//@   invariant bReqs != nil && fresh(bReqs) && !BuilderErr(bReqs)
+//@ end
+
+// CreateTokenRequest accepts exactly non-empty lists of type-1 / type-2 request objects and hands out a batch
+// with an empty cache.
+//
+//@ func (c BatchedClient) CreateTokenRequest(tokenRequests []tokens.TokenRequestWithDetails) (res *BatchedTokenRequest, err error)
+//@ props C04 C16
+//@ safety C04
+//@ requires forall(0, len(tokenRequests), func(k int) bool { return tokenRequests[k] != nil })
+//@ ensures err == nil ==> res != nil && fresh(res) && res.raw == nil && sameslice(res.token_requests, tokenRequests) && len(tokenRequests) > 0
+//@ ensures err != nil ==> res == nil
+//@ assigns none
+//@ end
